@@ -177,7 +177,7 @@ func constString(c *ssa.Const) string {
 		return "nil"
 	}
 	if c.Value.Kind() == constant.String {
-		return constant.StringVal(c.Value)
+		return printableConst(constant.StringVal(c.Value))
 	}
 	return c.Value.ExactString()
 }
@@ -635,4 +635,23 @@ func sortedAtoms(t *Term) []string {
 	}
 	sort.Strings(s)
 	return s
+}
+
+// printableConst renders string constants with non-printable bytes as 0x<hex> so keys and reports stay readable.
+func printableConst(s string) string {
+	for i := 0; i < len(s); i++ {
+		if s[i] < 0x20 || s[i] > 0x7e {
+			return "0x" + hexOf(s)
+		}
+	}
+	return s
+}
+
+func hexOf(s string) string {
+	const d = "0123456789abcdef"
+	b := make([]byte, 0, 2*len(s))
+	for i := 0; i < len(s); i++ {
+		b = append(b, d[s[i]>>4], d[s[i]&15])
+	}
+	return string(b)
 }
